@@ -233,6 +233,10 @@ where
 {
     let Some(mut bump) = initial::<A, S>(ctx) else { return };
     bump_after(ctx, &bump, Expect { may_decrease: true, ..Default::default() });
+    if ctx.view.typed.cur.is_none() && ctx.rng.chance(2, 3) {
+        // a claim on an arena that has not allocated anything yet
+        super::structure::op_claim(bump.as_mut_scope(), ctx, 0);
+    }
     while ctx.quota > 0 && ctx.viols_here <= 6 {
         match ctx.rng.weighted(&ctx.p.wtop) {
             0 => {
